@@ -322,6 +322,8 @@ func (in *instrumenter) rewriteFile(p *pkgInfo, f *ast.File, name string, write 
 	usesRuntime, runtimeStill := false, false
 	ctxName := importName(f, "context")
 	usesCtx, ctxStill := false, false
+	mhName := importName(f, "hash/maphash")
+	usesMh, mhStill := false, false
 
 	// sync import redirect
 	for _, is := range f.Imports {
@@ -576,6 +578,28 @@ func (in *instrumenter) rewriteFile(p *pkgInfo, f *ast.File, name string, write 
 								in.noteUnseamed(relFile, x.Pos(), "time."+x.Sel.Name+" (timers are not virtualised)")
 							}
 						}
+					} else if isPkgIdent(id, mhName) {
+						switch x.Sel.Name {
+						case "MakeSeed":
+							add(off(x.Pos()), int(x.End()-x.Pos()), rt+".MakeSeed")
+							in.res.Seams["maphash_seed"]++
+							usesMh = true
+						case "String":
+							add(off(x.Pos()), int(x.End()-x.Pos()), rt+".MHString")
+							in.res.Seams["maphash_hash"]++
+							usesMh = true
+						case "Bytes":
+							add(off(x.Pos()), int(x.End()-x.Pos()), rt+".MHBytes")
+							in.res.Seams["maphash_hash"]++
+							usesMh = true
+						case "Hash", "Comparable", "WriteComparable":
+							// hashed with the runtime's per-process random key (and a
+							// zero maphash.Hash seeds itself at random)
+							mhStill = true
+							in.res.Seams["nondet_selfseed"]++
+						default:
+							mhStill = true
+						}
 					} else if isPkgIdent(id, ctxName) {
 						if to, ok := ctxFuncs[x.Sel.Name]; ok {
 							add(off(x.Pos()), int(x.End()-x.Pos()), rt+"."+to)
@@ -616,6 +640,9 @@ func (in *instrumenter) rewriteFile(p *pkgInfo, f *ast.File, name string, write 
 	}
 	if usesRuntime && !runtimeStill {
 		tail += fmt.Sprintf("\nvar _ = %s.GC\n", runtimeName)
+	}
+	if usesMh && !mhStill {
+		tail += fmt.Sprintf("\nvar _ %s.Seed\n", mhName)
 	}
 	if usesCtx && !ctxStill {
 		tail += fmt.Sprintf("\nvar _ = %s.Background\n", ctxName)
